@@ -14,7 +14,8 @@ order = v.project_closure(projs)
 bad = 0
 for p in order:
     t = time.time()
-    rc, out = v.coq_make(p)
+    with v.Lock('coq-' + p):
+        rc, out = v.coq_make(p)
     print("coq %-8s rc=%d %.1fs" % (p, rc, time.time() - t), flush=True)
     if rc != 0:
         bad += 1
